@@ -193,3 +193,17 @@ Proof.
   destruct (find_tx log (rq_revert q)); [|discriminate].
   destruct (is_reverted log (rq_revert q)); [discriminate|exact Hrun].
 Qed.
+
+(* ---- cancellation: the sequential driver never cancels, so no request it runs gives up a lock wait ---------------- *)
+Lemma answer_not_lock_cancelled : forall log ltx q, answer log ltx q <> RErr ELockCancelled.
+Proof.
+  intros log ltx q. unfold answer, answer_run, answer_exec.
+  repeat match goal with |- context [match ?x with _ => _ end] => destruct x end; discriminate.
+Qed.
+
+Theorem e3_C14_never_lock_cancelled : forall s t q, reachable s -> quiescent s -> get_thread (threads s) t = None ->
+  exists th, get_thread (threads (submit s t q)) t = Some th /\ t_resp th <> Some (RErr ELockCancelled).
+Proof.
+  intros s t q R Q Hn. destruct (e3_answer s t q Q Hn (fun _ => e3_fresh_uid s R)) as (th & G & A).
+  exists th. split; [exact G|]. rewrite A. intros E. inversion E as [E']. exact (answer_not_lock_cancelled _ _ _ E').
+Qed.
